@@ -12,6 +12,11 @@ known finding, classified per case:
 Such strings are IN the domain (plain SMILES that both toolkits accept): RDKit 2024 never writes a bond
 symbol at an opening digit, so the harness moves/copies closing-digit bond symbols to the opening digit and
 adds hand-written ring templates whose closure bond is double.
+INPUT FORMS (tags ring_label:*, ring_bond:*, own_writer*, entry:*): RDKit's writer never writes ring label 0 and, being depth-first,
+never closes a ring between a branch atom and its sibling.  So a fixed share of the strings of every run are (a) RDKit writings with
+their ring labels renumbered (any digit 0-9, re-used after closing) and (b) writings of the harness's own writer `write_graph` (any
+spanning tree; a ring bond between textually consecutive atoms `CC(C1)C1`; a chain bond as ring closure across a dot `C1.C1`; ring
+digits after branches); 30% of the plain cases reach the parser through `Parser().parse` / `Parser()()` instead of `parse()`.
 Out of domain (counted and reported): adjacent ring digits (`C12…`, excluded by the property statement:
 "non-adjacent ring-closure digits"), strings on which RDKit re-perceives aromaticity (Kekulé forms), strings
 RDKit rejects.
@@ -42,7 +47,12 @@ CORPUS = ['CSn1cccc1', 'C1CCCc2c1cccc2', 'c1ccccc1', 'CC(=O)O', 'C1CC1.C1CC1', '
           'c1cc(ccc1)S(=O)(=O)C', 'C(c1ccccc1)Sn1cccc1',
           # a bond symbol before a ring-opening digit (K5 when the symbol changes the reading; `-`/`:` agree)
           'C=1CCC1', 'C=1CCCCC1', 'C=1CCCCC=1', 'C1CCCCC=1', 'CC=1CCOCC1', 'C-1CCC1', 'c:1ccccc1', 'C-1-C=C-C1',
-          'N=1CCCC1', 'C=1(C)CCC1', 'ClC=1CCCC1Br']
+          'N=1CCCC1', 'C=1(C)CCC1', 'ClC=1CCCC1Br',
+          # FORMS RDKit's writer never produces: ring label 0, a label taken again, ring digits after a branch, a ring bond between
+          # textually consecutive atoms (opened on the last atom of a branch, closed on the first atom after it), a ring closure across a dot
+          'C0CC0', 'c0ccccc0', 'C1CC1C0CC0', 'C0CC0C0CC0', 'C0CCC=0', 'Cc0ccc(cc0)C1CCNCC1', 'Clc0ccc1c(c0)CCO1', 'C(C)1CC1',
+          'CC(C1)C1', 'CC(C)(C1)C1', 'OC(C1)C1', 'C(=C1)C1', 'C(CCCC1)C1', 'c(c1)cccn1', 'C(=C1)CC1', 'C(C1)(C1)',
+          'C1.C1', 'CC1.C1', 'c1ccccc1C2.C2', 'C1.C=1', 'C1CC2.C12']
 
 # ring templates whose closure bond is double / triple (RDKit itself avoids closing a ring on a multiple bond)
 CLOSURE_BODIES = ['CC', 'CCC', 'CCCC', 'COC', 'CNC', 'CC(C)C', 'CSC', 'CCOC', 'C(F)C', 'CC(=O)C', 'CC(c2ccccc2)C', 'CCCCCC']
@@ -122,6 +132,316 @@ def normalise_opening_bonds(chain):
                 walk(it[2])
     walk(chain)
     return chain
+
+
+# ---------------------------------------------------------------------------
+# other FORMS of the same string: ring-closure labels (RDKit's writer starts at 1 and never writes 0) and writings
+# no depth-first writer produces (ring bond between textually consecutive atoms, ring closure across a dot)
+# ---------------------------------------------------------------------------
+DIGITS = list("0123456789")
+
+
+def renumber_rings(rng, chain):
+    """the same writing with other ring-closure labels: every opening digit takes a digit 0-9 (0 included) that is not
+    open at that point, so a label is used again after its ring was closed; None when there is no ring / no free digit"""
+    open_ids = {}
+    order = rng.sample(DIGITS, 10)
+    first_free = rng.random() < 0.5          # True: always the first free digit of a random order (maximal re-use)
+    n = [0]
+
+    def walk(c):
+        items = []
+        for it in c[1]:
+            if it[0] == 'r':
+                n[0] += 1
+                if it[2] in open_ids:
+                    items.append(('r', it[1], open_ids.pop(it[2])))
+                else:
+                    free = [d for d in order if d not in open_ids.values()]
+                    if not free:
+                        raise OverflowError
+                    d = free[0] if first_free else rng.choice(free)
+                    open_ids[it[2]] = d
+                    items.append(('r', it[1], d))
+            else:
+                items.append((it[0], it[1], walk(it[2])))
+        return (c[0], items)
+    try:
+        out = walk(chain)
+    except OverflowError:
+        return None
+    return out if n[0] else None
+
+
+def chain_graph(chain):
+    """what a plain-SMILES writing denotes, read off the syntax tree: (atoms in textual order, [(u, v, written bond)])
+    without the `.` pairs; the bond of a ring closure is the one written at the closing digit"""
+    atoms, bonds, _marks, _rc, _open = c01.py_events(chain)
+    return atoms, [(u, v, b) for u, v, b in bonds if b != ('s', '.') and u != v]
+
+
+def _components(nodes, adj):
+    seen, comps = set(), []
+    for s0 in nodes:
+        if s0 in seen:
+            continue
+        comp, stack = [], [s0]
+        seen.add(s0)
+        while stack:
+            u = stack.pop()
+            comp.append(u)
+            for v in adj[u]:
+                if v not in seen:
+                    seen.add(v)
+                    stack.append(v)
+        comps.append(comp)
+    return comps
+
+
+def _spanning_tree(rng, nodes, adj, kind):
+    """tree edges (frozensets) of the connected graph induced on `nodes`: a randomised depth-first tree or ANY
+    spanning tree (random Kruskal) — with the latter, ring closures join atoms that are not ancestor/descendant"""
+    nodes = list(nodes)
+    inside = set(nodes)
+    tree = set()
+    if kind == 'dfs':
+        seen = set()
+
+        def dfs(u):
+            seen.add(u)
+            nb = [v for v in adj[u] if v in inside]
+            rng.shuffle(nb)
+            for v in nb:
+                if v not in seen:
+                    tree.add(frozenset((u, v)))
+                    dfs(v)
+        dfs(rng.choice(nodes))
+        return tree
+    comp = {u: u for u in nodes}
+
+    def find(x):
+        while comp[x] != x:
+            comp[x] = comp[comp[x]]
+            x = comp[x]
+        return x
+    edges = sorted({tuple(sorted((u, v))) for u in nodes for v in adj[u] if v in inside})
+    rng.shuffle(edges)
+    for u, v in edges:
+        if find(u) != find(v):
+            comp[find(u)] = find(v)
+            tree.add(frozenset((u, v)))
+    return tree
+
+
+def _tree_path(tadj, a, b):
+    prev = {a: None}
+    stack = [a]
+    while stack:
+        u = stack.pop()
+        for v in tadj[u]:
+            if v not in prev:
+                prev[v] = u
+                stack.append(v)
+    path = [b]
+    while path[-1] != a:
+        path.append(prev[path[-1]])
+    return path[::-1]
+
+
+def _force_consecutive(rng, comp, adj):
+    """a spanning tree, a root and child-order constraints under which some ring bond (L, F) joins textually
+    consecutive atoms: L is a leaf of the tree and the last atom of the branch written directly before F.
+    returns (tree edges, root, {node: child that must come last}, (X, A, F)) or None (component without a ring)"""
+    inside = set(comp)
+    cands = []
+    for L in comp:
+        nb = [v for v in adj[L] if v in inside]
+        if len(nb) < 2:
+            continue
+        rest = [u for u in comp if u != L]
+        radj = {u: [v for v in adj[u] if v in inside and v != L] for u in rest}
+        if len(_components(rest, radj)) == 1:
+            cands.append(L)
+    if not cands:
+        return None
+    L = rng.choice(cands)
+    nb = [v for v in adj[L] if v in inside]
+    F, p1 = rng.sample(nb, 2)
+    rest = [u for u in comp if u != L]
+    radj = {u: [v for v in adj[u] if v in inside and v != L] for u in rest}
+    tree = _spanning_tree(rng, rest, radj, rng.choice(['dfs', 'any']))
+    tree.add(frozenset((L, p1)))
+    tadj = {u: [] for u in comp}
+    for e in tree:
+        u, v = tuple(e)
+        tadj[u].append(v)
+        tadj[v].append(u)
+    path = _tree_path(tadj, L, F)            # L = p0, p1, ..., X, F
+    X = path[-2]
+    A = path[-3] if len(path) >= 3 else L    # first atom of the branch that ends with L (A = L for a 3-ring `X(L1)F1`)
+    # the root: X, or any node of a sub-tree hanging off X other than the ones of A and F
+    roots = [X]
+    for c in tadj[X]:
+        if c in (A, F):
+            continue
+        stack, seen = [c], {X, c}
+        while stack:
+            u = stack.pop()
+            roots.append(u)
+            for v in tadj[u]:
+                if v not in seen:
+                    seen.add(v)
+                    stack.append(v)
+    last = {}
+    for i in range(1, len(path) - 2):        # p1 .. A: the path child comes last
+        last[path[i]] = path[i - 1]
+    return tree, rng.choice(roots), last, (X, A, F)
+
+
+def write_graph(rng, atoms, bonds, mode):
+    """own SMILES writer.  mode: 'dfs' (randomised depth-first tree), 'any' (ANY spanning tree), 'consecutive' (a ring
+    bond between textually consecutive atoms is forced where the graph has a ring), 'dot_ring' (a chain bond of the top
+    level is written as a ring closure across a dot: `C1.C1`); ring digits 0-9 taken at random and re-used.
+    Dots only at the top level (RDKit refuses a dot inside a branch).  returns (chain, order, forms) — `order[k]` = the
+    atom of the input graph written k-th — or None"""
+    n = len(atoms)
+    adj = {u: [] for u in range(n)}
+    bsym = {}
+    for u, v, b in bonds:
+        if frozenset((u, v)) in bsym or u == v:
+            return None
+        adj[u].append(v)
+        adj[v].append(u)
+        bsym[frozenset((u, v))] = b
+    comps = _components(range(n), adj)
+    rng.shuffle(comps)
+    items = {u: [] for u in range(n)}
+    forms = set()
+    roots = []
+    for comp in comps:
+        forced = _force_consecutive(rng, comp, adj) if mode == 'consecutive' else None
+        if forced is not None:
+            tree, root, last, (X, A, F) = forced
+            forms.add("forced_consecutive_ring_bond")
+        else:
+            tree, root, last, X = _spanning_tree(rng, comp, adj, 'dfs' if mode == 'dfs' else 'any'), rng.choice(comp), {}, None
+        tadj = {u: [] for u in comp}
+        for e in tree:
+            u, v = tuple(e)
+            tadj[u].append(v)
+            tadj[v].append(u)
+        roots.append(root)
+        stack = [(root, None)]
+        while stack:
+            u, par = stack.pop()
+            kids = [v for v in tadj[u] if v != par]
+            rng.shuffle(kids)
+            if u in last and last[u] in kids:
+                kids.remove(last[u])
+                kids.append(last[u])
+            if forced is not None and u == X:
+                kids.remove(A)
+                kids.insert(kids.index(F), A)
+            marks = [['r', None, None, frozenset((u, v))] for v in adj[u] if frozenset((u, v)) not in tree]
+            rng.shuffle(marks)
+            branch_last = bool(kids) and u not in last and not (forced is not None and u == X) and rng.random() < 0.08
+            its = [['b' if (k < len(kids) - 1 or branch_last) else 'n', bsym[frozenset((u, v))], v] for k, v in enumerate(kids)]
+            if branch_last:
+                forms.add("last_child_in_parentheses")
+            if marks and its and rng.random() < 0.25:
+                # ring digits between / after the branches (`C(C)1CC1`) instead of directly after the atom
+                hi = len(its) - (1 if its[-1][0] == 'n' else 0)
+                for m in marks:
+                    its.insert(rng.randint(0, hi), m)
+                    hi += 1
+                forms.add("ring_digit_after_branch")
+            else:
+                its = marks + its
+            items[u] = its
+            for v in kids:
+                stack.append((v, u))
+
+    def main_end(u):
+        while items[u] and items[u][-1][0] == 'n':
+            u = items[u][-1][2]
+        return u
+    for a, b in zip(roots, roots[1:]):
+        items[main_end(a)].append(['n', ('s', '.'), b])
+    if mode == 'dot_ring':
+        # top-level chain bonds X -> F; prefer those where F directly follows X in the text
+        top = []
+        u = roots[0]
+        while items[u] and items[u][-1][0] == 'n':
+            if items[u][-1][1] != ('s', '.'):
+                top.append(u)
+            u = items[u][-1][2]
+        if top:
+            nxt = lambda u: items[u][-1][2]
+            direct = [u for u in top if all(it[0] == 'r' for it in items[u][:-1])]
+            clean = [u for u in direct if len(items[u]) == 1 and not (items[nxt(u)] and items[nxt(u)][0][0] == 'r')]
+            pool = clean if clean and rng.random() < 0.8 else direct if direct and rng.random() < 0.7 else top
+            for u in [rng.choice(pool)]:
+                it = items[u][-1]
+                f = it[2]
+                e = ('dot', u, f)
+                bsym[e] = it[1]
+                it[1] = ('s', '.')
+                items[u].insert(len(items[u]) - 1, ['r', None, None, e])
+                items[f].insert(0, ['r', None, None, e])
+                forms.add("ring_closure_across_dot")
+    # textual order, ring labels, bond symbols at the closing digits
+    order = []
+    open_ids = {}
+    lower = lambda u: atoms[u][1].islower()
+
+    def number(u):
+        order.append(u)
+        prev_mark = False
+        for it in items[u]:
+            if it[0] == 'r':
+                e = it[3]
+                if e in open_ids:
+                    d, opener = open_ids.pop(e)
+                    it[2] = d
+                    it[1] = bsym[e]
+                    if prev_mark and it[1] is None:
+                        # two ring digits in a row would read as ONE ring number for FGUtils (excluded by the property):
+                        # write the bond of the closing digit out
+                        it[1] = ('s', ':' if lower(u) and lower(opener) else '-')
+                else:
+                    free = [d for d in DIGITS if d not in {x[0] for x in open_ids.values()}]
+                    if not free:
+                        raise OverflowError
+                    d = rng.choice(free)
+                    open_ids[e] = (d, u)
+                    it[2] = d
+                prev_mark = True
+            else:
+                prev_mark = False
+                number(it[2])
+    try:
+        number(roots[0])
+    except OverflowError:
+        return None
+    if len(order) != n or open_ids:
+        raise RuntimeError("own SMILES writer lost atoms or left a ring open")
+
+    def freeze(u):
+        return (atoms[u], [('r', it[1], it[2]) if it[0] == 'r' else (it[0], it[1], freeze(it[2])) for it in items[u]])
+    chain = freeze(roots[0])
+    # self-check of the writer (machinery): the new writing bonds the same pairs with the same orders
+    pos = {u: k for k, u in enumerate(order)}
+    atoms2, bonds2 = chain_graph(chain)
+
+    def order_of(b, u, v):
+        if b is None:
+            return ':' if lower(u) and lower(v) else '-'
+        return b[1]
+    want = sorted((min(pos[u], pos[v]), max(pos[u], pos[v]), order_of(b, u, v)) for u, v, b in bonds)
+    got = sorted((min(u, v), max(u, v), order_of(b, order[u], order[v])) for u, v, b in bonds2)
+    if atoms2 != [atoms[u] for u in order] or want != got:
+        raise RuntimeError("own SMILES writer changed the molecule: %r" % render(chain))
+    return chain, order, sorted(forms)
 
 
 def gen_mol(rng):
@@ -249,7 +569,19 @@ def module_level_history(rng, s):
     return c01.ml_parse(s), history
 
 
-def make_case(r, s, origin, tags=(), reused=None, module_history=False, replay_meta=None):
+ENTRIES = ["parse()"] * 7 + ["Parser().parse"] * 1 + ["Parser()()"] * 1 + ["Parser.parse(s,0)"] * 1
+
+
+def fresh_parser_call(s, entry):
+    import fgutils.parse as P
+    if entry == "Parser()()":
+        return P.Parser()(s)
+    if entry == "Parser.parse(s,0)":
+        return P.Parser(use_multigraph=False, init_aam=False).parse(s, 0)
+    return P.Parser().parse(s)
+
+
+def make_case(r, s, origin, tags=(), reused=None, module_history=False, replay_meta=None, entry=None):
     """reused: a c01.ReusedParsers — the SMILES is parsed on a long-lived `Parser()` object (HISTORY scenario);
     module_history: the module-level parse() is first given other strings; replay_meta: re-run a recorded history"""
     if set(s) - _ALLOWED:
@@ -282,6 +614,11 @@ def make_case(r, s, origin, tags=(), reused=None, module_history=False, replay_m
         tags += ["history", "history:module_level_parse"]
         if any(h["result"].startswith("raised") for h in history):
             tags.append("history:after_rejected")
+    elif (entry or (replay_meta or {}).get("entry") or "parse()") != "parse()":
+        # a new Parser object: the method, or the object called
+        entry = entry or replay_meta.get("entry")
+        plain_history = None
+        impl = call_impl(fresh_parser_call, s, entry)
     else:
         # a plain call of the module-level parse(); what that function was given before is recorded all the same
         plain_history = c01.ml_history()
@@ -315,6 +652,8 @@ def make_case(r, s, origin, tags=(), reused=None, module_history=False, replay_m
     st = c01.chain_stats(chain)
     key = s if st['atoms'] >= 4 and (st['rings'] or st['branches']) else None
     t = list(tags) + [origin, "in_domain" if in_domain else "out_of_domain"]
+    forms = c01.ring_form_tags(chain)
+    t += forms + ([f + ":in_domain" for f in forms] if in_domain else [])
     t += [k for k in ("rings", "dots", "lower", "branches") if st[k]]
     t += ["ring_closures>=2" if st['rings'] >= 4 else "ring_closures<=1",
           "atoms>=15" if st['atoms'] >= 15 else "atoms<15"]
@@ -327,6 +666,8 @@ def make_case(r, s, origin, tags=(), reused=None, module_history=False, replay_m
     meta = {"smiles": s, "origin": origin, "in_contract": in_contract, "excluded": sorted(hard_exc),
             "opening_bond": opening_bond}
     meta.update(hist_meta)
+    meta["entry"] = "reused_Parser_object.parse" if meta.get("reused_parser") else (entry or "parse()") if not hist_meta else "parse()"
+    t.append("entry:" + meta["entry"])
     if not hist_meta and replay_meta is None and reused is None and not module_history:
         meta.update({"reused_parser": False, "history": plain_history})
     return Case(req, impl_can, in_domain=in_domain, nontrivial_key=key, tags=t, meta=meta)
@@ -337,7 +678,7 @@ def run(tier, seed):
     if not c01.prepare_tolerant(r, PROOFS, "C02"):
         return 2
     rng = r.rng
-    n_strings = 1500 if tier == "quick" else 100000
+    n_strings = 2200 if tier == "quick" else 140000
     known = {f["id"]: f for f in load_known_findings()}
     k1, k5 = known["K1"], known["K5"]
     # witnesses of known findings are replayed against the real code on every run
@@ -388,7 +729,7 @@ def run(tier, seed):
         if hist:
             n_added[1] += 1
         c = make_case(r, s, origin, tags, reused=reused if hist and n_added[1] % 2 == 0 else None,
-                      module_history=hist and n_added[1] % 2 == 1)
+                      module_history=hist and n_added[1] % 2 == 1, entry=None if hist else rng.choice(ENTRIES))
         if c is not None:
             pending.append(c)
         return c
@@ -442,6 +783,28 @@ def run(tier, seed):
                 c = add(s, "writing:" + how)
                 produced += 1
                 cands.append((s, c))
+        # other FORMS of the same molecules (a fixed fraction of the strings of every run): the ring labels of RDKit's
+        # writings renumbered (any digit 0-9, 0 included, labels re-used after closing), and the molecule written again
+        # by the harness's own writer (any spanning tree instead of a depth-first one; a ring bond between textually
+        # consecutive atoms `CC(C1)C1`; a chain bond as a ring closure across a dot `C1.C1`; digits after branches)
+        src = [(s, c) for s, c in cands if c is not None and c.in_domain and not c.meta["opening_bond"]]
+        for s, c in src:
+            if rng.random() < 0.3:
+                ch2 = renumber_rings(rng, read_chain(s, single_digit_rings=True, atom_re=_SMILES_TOK))
+                if ch2 is not None:
+                    cands.append((render(ch2), add(render(ch2), "ring_labels_renumbered")))
+                    produced += 1
+        if src:
+            s0, _c0 = rng.choice(src)
+            g_atoms, g_bonds = chain_graph(read_chain(s0, single_digit_rings=True, atom_re=_SMILES_TOK))
+            for mode in rng.choice([['consecutive', 'dot_ring'], ['consecutive', 'any'], ['dot_ring', 'dfs'], ['consecutive'], ['any']]):
+                w = write_graph(rng, g_atoms, g_bonds, mode)
+                if w is None:
+                    r.count("own_writer:gave_up")
+                    continue
+                s2 = render(w[0])
+                cands.append((s2, add(s2, "own_writer:" + mode, tags=["own_writer"] + ["own_writer_form:" + f for f in w[2]])))
+                produced += 1
         for s, c in cands:
             # RDKit writes ring-closure bond symbols at the closing digit only: move / copy them to the opening digit
             if c is None or not c.in_domain or rng.random() >= (0.9 if "=9" in s else 0.35):
@@ -461,6 +824,12 @@ def run(tier, seed):
     r.extra_cov["history_cases_differing_from_fresh_object"] = dist.get("tag:history:differs_from_fresh_object", 0)
     r.extra_cov["bond_before_opening_digit_in_domain_cases"] = opening_in_domain[0]
     r.extra_cov["bond_before_opening_digit_in_domain_cases_failing_spec"] = opening_in_domain[1]
+    r.extra_cov["input_forms_in_domain(ring labels, writings no depth-first writer produces)"] = {
+        k: dist.get("tag:" + k + ":in_domain", 0) for k in ("ring_label:0", "ring_label:reused_after_closing",
+                                                            "ring_bond:consecutive_atoms", "ring_bond:across_dot")}
+    r.extra_cov["strings_by_origin"] = {k[4:]: v for k, v in dist.items() if k.startswith(("tag:writing:", "tag:own_writer:", "tag:ring_labels_renumbered",
+                                                                                          "tag:closure_template", "tag:opening_bond:", "tag:corpus"))}
+    r.extra_cov["cases_by_entry_point"] = {k[len("tag:entry:"):]: v for k, v in sorted(dist.items()) if k.startswith("tag:entry:")}
     r.extra_cov["out_of_domain_counts"] = {
         "adjacent_ring_digits (excluded by the property statement)": dist.get("filter:excluded_syntax:adjacent_ring_digits", 0),
         "unclosed_ring": dist.get("filter:excluded_syntax:unclosed_ring", 0),
@@ -491,7 +860,10 @@ def run(tier, seed):
         level="proof",
         rule="molecules assembled from %d ring systems (aromatic/hetero-aromatic, fused, spiro, bridged) and %d chain fragments (3-30 heavy atoms, "
              "dots), 4 non-canonical writings each (random atom order and root; 20%% all bonds explicit, 8%% Kekule); 12%% ring templates closed on a "
-             "double bond; closing-digit bond symbols moved/copied to the opening digit (35%% / 90%% of the eligible writings); filtered to the shared "
+             "double bond; closing-digit bond symbols moved/copied to the opening digit (35%% / 90%% of the eligible writings); INPUT FORMS: 30%% of the writings "
+             "again with renumbered ring labels (digits 0-9 incl. 0, labels re-used after closing), and per molecule 1-2 writings of the harness's own writer "
+             "(any spanning tree, ring bond between textually consecutive atoms `CC(C1)C1`, chain bond as ring closure across a dot `C1.C1`, ring digits after "
+             "branches, last child in parentheses; tags ring_label:* / ring_bond:* are decided by an oracle on the syntax tree of every string); filtered to the shared "
              "sub-language; HISTORY: every 5th string is parsed on a long-lived Parser() object (sessions of 2-40 strings with <g,h> patterns, rejected "
              "strings such as '1CC', 'CC(C!)C' and unfinished patterns such as 'C(C' in between) or through the module-level parse() directly after such "
              "strings; the replay records the preceding calls; in-domain = plain, no adjacent ring digits, in RDKit contract (bond symbols before opening digits included); non-trivial = "
